@@ -3,6 +3,7 @@ package language
 import (
 	"bytes"
 	"fmt"
+	"math"
 	"reflect"
 	"strconv"
 	"strings"
@@ -634,6 +635,10 @@ func evalListIndexValue(node *Identifier, env *Environment) (int64, Object) {
 	number, ok := obj.(*Number)
 	if !ok {
 		return 0, newError("access index with [] only support N as index : got %q", obj.Type())
+	}
+
+	if number.Value < 0 || number.Value > math.MaxInt32 {
+		return 0, newError("a list index must be a non-negative integer that fits 32 bits: got %s", number.Inspect())
 	}
 
 	return int64(number.Value), nil
